@@ -10,8 +10,8 @@ import shapes
 import vlib
 from checks.rt_common import COMMON_ASSUMPTIONS
 
-KINDS = {"main": ["errors", "assert", "trunc-outs", "missing-key", "wrong-type"],
-         "join": ["errors", "assert", "trunc-outs", "missing-key", "wrong-type"],
+KINDS = {"main": ["errors", "assert", "trunc-outs", "missing-key", "wrong-type", "garbage-outs"],
+         "join": ["errors", "assert", "trunc-outs", "missing-key", "wrong-type", "garbage-outs"],
          "split": ["errors", "assert", "bad-stage-defs", "stale-defs"]}
 
 
@@ -31,7 +31,7 @@ def fault_specs(progs, sem, tier, rng):
                 # the stage's internal contract and not validated by default
                 if k in ("missing-key", "wrong-type") and (not has_outs(i) or chunk_of_split):
                     continue
-                if k == "trunc-outs" and not has_outs(i):
+                if k in ("trunc-outs", "garbage-outs") and (not has_outs(i) or chunk_of_split):
                     continue
                 cases.append((key, k))
         rng.shuffle(cases)
